@@ -260,7 +260,42 @@ func trunc(b []byte, n int) []byte {
 	return b
 }
 
+// runCell runs one matrix cell. Findings that rest on a time-out (a response that did not arrive within N seconds) are
+// reported only if the SAME cell with the SAME scripts (same cell seed) shows a finding of the same signature again:
+// a stalled exchange that belongs to the code reproduces, a scheduling hiccup of a loaded machine does not.
 func runCell(rep *hx.Report, r *rand.Rand, iomod int, emode int, nconn, ntls int) {
+	cellSeed := r.Int63()
+	var first []hx.Finding
+	runCellOnce(rep, rand.New(rand.NewSource(cellSeed)), iomod, emode, nconn, ntls, func(f hx.Finding) { first = append(first, f) })
+	timed := false
+	for _, f := range first {
+		if strings.Contains(f.What, "timeout") || strings.Contains(f.What, "i/o timeout") {
+			timed = true
+		}
+	}
+	var second []hx.Finding
+	if timed {
+		rep.Stat("cell-rerun-after-timeout-finding")
+		runCellOnce(rep, rand.New(rand.NewSource(cellSeed)), iomod, emode, nconn, ntls, func(f hx.Finding) { second = append(second, f) })
+	}
+	for _, f := range first {
+		if timed && (strings.Contains(f.What, "timeout")) {
+			again := false
+			for _, g := range second {
+				if g.Signature == f.Signature {
+					again = true
+				}
+			}
+			if !again {
+				rep.Stat("timeout-finding-not-reproduced." + f.Signature)
+				continue
+			}
+		}
+		rep.Add(f)
+	}
+}
+
+func runCellOnce(rep *hx.Report, r *rand.Rand, iomod int, emode int, nconn, ntls int, add func(hx.Finding)) {
 	em, os1, ename := uint32(nbio.EPOLLLT), uint32(0), "LT"
 	switch emode {
 	case 1:
@@ -449,18 +484,18 @@ func runCell(rep *hx.Report, r *rand.Rand, iomod int, emode int, nconn, ntls int
 			continue
 		}
 		if x.sig != "" {
-			rep.Add(hx.Finding{Kind: "oracle", Property: "C10", Signature: sig, What: x.what,
+			add(hx.Finding{Kind: "oracle", Property: "C10", Signature: sig, What: x.what,
 				Replay: map[string]interface{}{"harness": "httpe2e", "config": c, "connection": x.c, "transport": x.tr, "requests": x.specs, "server_conn_table": dump}})
 		}
 	}
 	if v := hijackErr.Load(); v != nil {
-		rep.Add(hx.Finding{Kind: "oracle", Property: "C10", Signature: "hijacked-exchange", What: v.(string), Replay: map[string]interface{}{"harness": "httpe2e", "config": c}})
+		add(hx.Finding{Kind: "oracle", Property: "C10", Signature: "hijacked-exchange", What: v.(string), Replay: map[string]interface{}{"harness": "httpe2e", "config": c}})
 	}
 	if v := httpErr.Load(); v != nil {
-		rep.Add(hx.Finding{Kind: "oracle", Property: "C10", Signature: "nethttp-client", What: v.(string), Replay: map[string]interface{}{"harness": "httpe2e", "config": c}})
+		add(hx.Finding{Kind: "oracle", Property: "C10", Signature: "nethttp-client", What: v.(string), Replay: map[string]interface{}{"harness": "httpe2e", "config": c}})
 	}
 	if v := httpsErr.Load(); v != nil {
-		rep.Add(hx.Finding{Kind: "oracle", Property: "C10", Signature: "tls-nethttp-client", What: v.(string), Replay: map[string]interface{}{"harness": "httpe2e", "config": c, "transport": "net/http + crypto/tls, InsecureSkipVerify"}})
+		add(hx.Finding{Kind: "oracle", Property: "C10", Signature: "tls-nethttp-client", What: v.(string), Replay: map[string]interface{}{"harness": "httpe2e", "config": c, "transport": "net/http + crypto/tls, InsecureSkipVerify"}})
 	}
 	if len(rep.Samples) < 3 && nconn > 0 {
 		rep.Sample(map[string]interface{}{"config": c, "connection0_requests": results[0].specs})
